@@ -18,7 +18,7 @@ LAYOUT_DIR = pathlib.Path(__file__).resolve().parent / "layout"
 
 class Layout:
     def __init__(self, name):
-        doc = json.loads((LAYOUT_DIR / f"{name}.json").read_text())
+        doc = json.loads((LAYOUT_DIR / f"{name}.json").read_text(encoding="utf-8"))
         self.name = name
         self.size = doc["size"]
         self.fields = [f for f in doc["fields"] if f["kind"] != "meta"]
